@@ -363,9 +363,32 @@ def rule_call_apply_name(check):
     fresh = b["origin"][0] == "let" and b["origin"][1] is not None and all(r[0] == "call" and ("Vec" in r[1]) for r, p_ in pv.origins(g, b["origin"][1])) and bool(pv.origins(g, b["origin"][1]))
     mo = pv.origins(g, hir.call_args(n)[mi])
     whole = bool(mo) and all(r[0] == "param" and p_ == () for r, p_ in mo)
-    idxs = [x for x in g.nodes() if x.get("k") == "Index" and (hir.local_of(x["x"]) or (None,))[0] == vec_l]
-    first_only = bool(idxs) and all(hir.lit_value(x["i"]) == 0 for x in idxs)
-    other_use = [x for x in g.nodes() if hir.is_call(x) and x is not n and any((hir.local_of(a) or (None,))[0] == vec_l for a in hir.call_args(x))]
+    # every read of the vector (apart from handing it to the helper) takes its first element:
+    # v[0], v.first(), v.iter().next(), v.into_iter().next(), v.get(0)
+    in_n = {id(x) for x in hir.walk(n)}
+    reads = [x for x in g.nodes() if x.get("k") == "Path" and (hir.local_of(x) or (None,))[0] == vec_l and id(x) not in in_n]
+    first_only = bool(reads)
+    other_use = []
+    for x in reads:
+        cur_ = x
+        chain_ = []
+        for _ in range(6):
+            par_ = g.parent(cur_)
+            while par_ is not None and par_.get("k") in ("DropTemps", "Use", "AddrOf"):
+                cur_, par_ = par_, g.parent(par_)
+            if par_ is not None and par_.get("k") == "MethodCall" and par_["recv"] is cur_:
+                chain_.append(par_["method"] if not (par_["method"] == "get" and par_["args"] and hir.lit_value(par_["args"][0]) == 0) else "[0]")
+                cur_ = par_
+                continue
+            if par_ is not None and par_.get("k") == "Index" and par_["x"] is cur_:
+                chain_.append("[%s]" % hir.lit_value(par_["i"]))
+                cur_ = par_
+                continue
+            break
+        core_ = [c_ for c_ in chain_ if c_ not in ("into_iter", "iter", "cloned", "copied", "clone", "as_slice")]
+        if core_[:1] not in (["next"], ["first"], ["[0]"]):
+            first_only = False
+            other_use.append(x)
     check.expect(fresh and whole and first_only and not other_use, R, key + "/first-element", hir.loc(n), "the method name is element 0 of a fresh vector filled by %s(member)" % h.name, "the method name of `F.call/apply` is not element 0 of a fresh path vector (fresh=%s, whole member=%s, only [0] read=%s, other uses=%d)" % (fresh, whole, first_only, len(other_use)))
     vprm = hir.pat_bindings(h.rec["params"][vi]["pat"])
     if not vprm:
